@@ -65,7 +65,8 @@ def run(ctx):
     rng = ctx.rng
     progs = ["find all any", "find all at least 1 (not 'b')", "find all 'zzz'", "replace all any with '<' value '\"'", "replace all in '\"', '\\\\' with 'x\\n'",
              "find all (any = x) maybe x", "find all at least 1 (any = c) named cs", "find all at least 1 ((any = c) maybe ('b' = d)) named outer 'b'",
-             "find top 1 any", "replace all 'a' with nothingdefined", "find all line start at least 0 any fewest line end"]
+             "find top 1 any", "replace all 'a' with nothingdefined", "replace all any with ''", "replace all 'a' with ''",
+             "replace all (maybe 'a') = x 'b' with x", "replace all in 'a', '\"' with '' ''", "find all line start at least 0 any fewest line end"]
     cases, meta = [], []
     for i in range(60 if quick else 800):
         p = rng.choice(progs)
